@@ -61,20 +61,20 @@ structure LInvD (l : LSt) : Prop where
   pa : PoolInv Bad l.a
   pb : PoolInv Bad l.b
 
-theorem step_bad (s : Sess) (e : Ev) (hp : PoolInv Bad s) (he : EvOK NoApp TS Bad e) :
+theorem step_bad (s : Sess) (e : Ev) (hp : PoolInv Bad s) (he : EvOK NoApp TS Bad s.cfg e) :
     deliveredSeqs (step s e).2.1 = [] ∧ (step s e).1.cfg = s.cfg ∧ PoolInv Bad (step s e).1 := by
   obtain ⟨h1, _, h3, h4⟩ := step_good (N := NoApp) (S := TS) s e (poolHyp_bad _) (Or.inl noApp_resetOK) hp he
   exact ⟨deliveredSeqs_noApp _ h1, h3, h4⟩
 
-theorem LInvD_onSide {l : LSt} (h : LInvD l) (side : Side) (e : Ev) (he : EvOK NoApp TS Bad e) :
+theorem LInvD_onSide {l : LSt} (h : LInvD l) (side : Side) (e : Ev) (he : ∀ cfg, EvOK NoApp TS Bad cfg e) :
     LInvD (onSide l side e).1 ∧ (onSide l side e).1.a.cfg = l.a.cfg ∧ (onSide l side e).1.b.cfg = l.b.cfg := by
   cases side with
   | A =>
-    obtain ⟨h1, h2, h3⟩ := step_bad l.a e h.pa he
+    obtain ⟨h1, h2, h3⟩ := step_bad l.a e h.pa (he _)
     simp only [onSide, h1, List.map_nil, List.append_nil]
     exact ⟨⟨h.da, h.db, h3, h.pb⟩, h2, trivial⟩
   | B =>
-    obtain ⟨h1, h2, h3⟩ := step_bad l.b e h.pb he
+    obtain ⟨h1, h2, h3⟩ := step_bad l.b e h.pb (he _)
     simp only [onSide, h1, List.map_nil, List.append_nil]
     exact ⟨⟨h.da, h.db, h.pa, h3⟩, trivial, h2⟩
 
@@ -85,11 +85,11 @@ theorem LInvD_lstep {cfgA cfgB : Cfg} (hbad : (cfgA.sender = "" ∨ cfgA.target 
     LInvD (lstep l e).1 ∧ (lstep l e).1.a.cfg = cfgA ∧ (lstep l e).1.b.cfg = cfgB := by
   cases e with
   | connect =>
-    obtain ⟨k1, a1, b1⟩ := LInvD_onSide h .A .connect trivial
-    obtain ⟨k2, a2, b2⟩ := LInvD_onSide k1 .B .connect trivial
+    obtain ⟨k1, a1, b1⟩ := LInvD_onSide h .A .connect (fun _ => trivial)
+    obtain ⟨k2, a2, b2⟩ := LInvD_onSide k1 .B .connect (fun _ => trivial)
     exact ⟨k2, (a2.trans a1).trans hca, (b2.trans b1).trans hcb⟩
   | send side p =>
-    obtain ⟨k1, a1, b1⟩ := LInvD_onSide h side (.send { kind := "D", seq := 0, f := [(9000, p)] }) (Or.inl noApp_resetOK)
+    obtain ⟨k1, a1, b1⟩ := LInvD_onSide h side (.send { kind := "D", seq := 0, f := [(9000, p)] }) (fun _ => Or.inl noApp_resetOK)
     simp only [lstep]
     split
     · cases side <;> exact ⟨⟨k1.da, k1.db, k1.pa, k1.pb⟩, a1.trans hca, b1.trans hcb⟩
@@ -103,7 +103,7 @@ theorem LInvD_lstep {cfgA cfgB : Cfg} (hbad : (cfgA.sender = "" ∨ cfgA.target 
         simp only [lstep, hq]
         have h1 : LInvD { l with b2a := rest, rcvA := noteRcv l.rcvA (toIn l.b.cfg m) } := ⟨h.da, h.db, h.pa, h.pb⟩
         obtain ⟨k1, a1, b1⟩ := LInvD_onSide h1 .A (.incomingMsg (some (toIn l.b.cfg m)))
-          (by intro x hx; cases hx; exact bad_toIn _ _ (by rw [hcb]; exact hbad.2))
+          (by intro _ x hx; cases hx; exact bad_toIn _ _ (by rw [hcb]; exact hbad.2))
         exact ⟨k1, a1.trans hca, b1.trans hcb⟩
     | B =>
       cases hq : l.a2b with
@@ -112,22 +112,22 @@ theorem LInvD_lstep {cfgA cfgB : Cfg} (hbad : (cfgA.sender = "" ∨ cfgA.target 
         simp only [lstep, hq]
         have h1 : LInvD { l with a2b := rest, rcvB := noteRcv l.rcvB (toIn l.a.cfg m) } := ⟨h.da, h.db, h.pa, h.pb⟩
         obtain ⟨k1, a1, b1⟩ := LInvD_onSide h1 .B (.incomingMsg (some (toIn l.a.cfg m)))
-          (by intro x hx; cases hx; exact bad_toIn _ _ (by rw [hca]; exact hbad.1))
+          (by intro _ x hx; cases hx; exact bad_toIn _ _ (by rw [hca]; exact hbad.1))
         exact ⟨k1, a1.trans hca, b1.trans hcb⟩
   | cut =>
     have h0 : LInvD { l with a2b := [], b2a := [] } := ⟨h.da, h.db, h.pa, h.pb⟩
-    obtain ⟨k1, a1, b1⟩ := LInvD_onSide h0 .A .disconnected trivial
-    obtain ⟨k2, a2, b2⟩ := LInvD_onSide k1 .B .disconnected trivial
+    obtain ⟨k1, a1, b1⟩ := LInvD_onSide h0 .A .disconnected (fun _ => trivial)
+    obtain ⟨k2, a2, b2⟩ := LInvD_onSide k1 .B .disconnected (fun _ => trivial)
     exact ⟨⟨k2.da, k2.db, k2.pa, k2.pb⟩, (a2.trans a1).trans hca, (b2.trans b1).trans hcb⟩
   | restart side =>
     cases side with
     | A => exact ⟨⟨h.da, h.db, poolInv_restart _, h.pb⟩, hca, hcb⟩
     | B => exact ⟨⟨h.da, h.db, h.pa, poolInv_restart _⟩, hca, hcb⟩
   | timer side ev =>
-    obtain ⟨k1, a1, b1⟩ := LInvD_onSide h side (.timeout ev) trivial
+    obtain ⟨k1, a1, b1⟩ := LInvD_onSide h side (.timeout ev) (fun _ => trivial)
     exact ⟨k1, a1.trans hca, b1.trans hcb⟩
   | flush side =>
-    obtain ⟨k1, a1, b1⟩ := LInvD_onSide h side .flush trivial
+    obtain ⟨k1, a1, b1⟩ := LInvD_onSide h side .flush (fun _ => trivial)
     exact ⟨k1, a1.trans hca, b1.trans hcb⟩
 
 theorem LInvD_run {cfgA cfgB : Cfg} (hbad : (cfgA.sender = "" ∨ cfgA.target = "") ∧ (cfgB.sender = "" ∨ cfgB.target = ""))
